@@ -181,15 +181,18 @@ static void trace_case(char** tok, int nt)
     // a source block of N + 64 bytes that ends at a PROT_NONE page (constant bytes, the data counter does not
     // advance; the model driver does the same with its N-byte stand-in, Properties_C04_huge.v), so an implementation
     // that accepts it faults (OOB-CRASH) instead of reading 4 GiB.  Sizes below N are served as before.
-    int            big = (op == 'W' || op == 'A') && n >= N;
-    unsigned char* b   = big ? (unsigned char*)g_alloc((size_t)N + 64, 1) : (unsigned char*)malloc((size_t)n + 1);
+    // A read / peek of n >= N bytes must likewise be refused without touching the destination: it gets a destination
+    // block of N + 64 bytes ending at a PROT_NONE page (a skip has no block; its size is passed unchanged).
+    int            bigw = (op == 'W' || op == 'A') && n >= N;
+    int            big  = bigw || ((op == 'R' || op == 'P') && n >= N);
+    unsigned char* b    = big ? (unsigned char*)g_alloc((size_t)N + 64, 1) : (unsigned char*)malloc((size_t)n + 1);
     if (!b) { printf("NO-MEM"); break; }
-    if (big) memset(b, 0x5A, (size_t)N + 64);
+    if (bigw) memset(b, 0x5A, (size_t)N + 64);
     if (i > 4) putchar(' ');
     switch (op) {
-    case 'W': if (!big) fill(b, n); printf("w=%u", zix_ring_write(ring, b, n)); break;
+    case 'W': if (!bigw) fill(b, n); printf("w=%u", zix_ring_write(ring, b, n)); break;
     case 'B': tx = zix_ring_begin_write(ring); printf("b"); break;
-    case 'A': if (!big) fill(b, n); printf("a=%d", (int)zix_ring_amend_write(ring, &tx, b, n)); break;
+    case 'A': if (!bigw) fill(b, n); printf("a=%d", (int)zix_ring_amend_write(ring, &tx, b, n)); break;
     case 'C': printf("c=%d", (int)zix_ring_commit_write(ring, &tx)); break;
     case 'S': printf("ws=%u", zix_ring_write_space(ring)); break;
     case 's': printf("rs=%u", zix_ring_read_space(ring)); break;
@@ -198,7 +201,7 @@ static void trace_case(char** tok, int nt)
     case 'P': {
       uint32_t ret = op == 'R' ? zix_ring_read(ring, b, n) : zix_ring_peek(ring, b, n);
       printf("%c=%u:", op == 'R' ? 'r' : 'p', ret);
-      vputhex(stdout, b, ret);
+      vputhex(stdout, b, big && ret > N + 64U ? N + 64U : ret); // (a wrongly accepted over-long read: print what the block holds)
       break;
     }
     default: printf("?");
